@@ -6,7 +6,6 @@ import (
 	"fmt"
 	"math/rand/v2"
 	"os"
-	"runtime/pprof"
 	"strings"
 	"time"
 
@@ -14,11 +13,6 @@ import (
 )
 
 func main() {
-	if f := os.Getenv("VERIF_CPUPROFILE"); f != "" && (len(os.Args) < 2 || os.Args[1] != "--child") {
-		fh, _ := os.Create(f)
-		pprof.StartCPUProfile(fh)
-		go func() { time.Sleep(50 * time.Second); pprof.StopCPUProfile(); fh.Close(); os.Exit(0) }()
-	}
 	mon.Main("codecmon", map[string]mon.PropFunc{
 		"C16": runC16,
 	})
@@ -33,11 +27,12 @@ func shuffled(r *rand.Rand, in []int) []int {
 func runC16(c *mon.Ctx) {
 	c.Rule("A sender writes payload sequences with the real codec (codec.Write / transport.Conn.Send) into a harness byte pipe; a fresh receiver instance of the same protocol reads them back through a " +
 		"chunking reader and every delivered frame is compared with what was sent (4-byte payloads must surface as *ProtocolErr with the negated code; after the last frame the reader must report an error, not a frame). " +
-		"Arms: grid = every payload length 4..2048 step 4, shuffled into sequences of <=50 frames, for each protocol x {header, NoHeader, obfuscated2-wrapped} x 7 read schedules " +
-		"(all, 1-byte, rand 1..7, rand 1..4096, reads ending one before / on / one after every header, length-prefix, seqno, crc and frame boundary), half of them delivering the last bytes together with io.EOF; " +
-		"big = 2^k, 2^k+-4 up to 1 MiB (thorough 16 MiB); limit = payloads at the 16 MiB frame limit; random = random sequences 1..50 frames mixing lengths around the abridged 127-word boundary; " +
-		"session = transport.Protocol.Handshake client + transport.Listen/ListenCodec/ObfuscatedListener accept over the pipe, both directions, detected codec type checked by reflection and by the replies; " +
-		"detect = first-frame length sweep for listener detection; concurrent = 2..8 goroutines Send on one Conn, 1..2 Recv on the peer, offline exactly-once / integrity / per-sender FIFO check, under -race. " +
+		"Read schedules: all, 1-byte, rand 1..7, rand 1..4096, reads ending one before / on / one after every header, length-prefix, seqno, crc and frame boundary; any of them may deliver the last bytes together with io.EOF. " +
+		"Arms: grid = every payload length 4..2048 step 4, shuffled into sequences of 20..50 frames, for each protocol x {header, NoHeader, obfuscated2-wrapped} (quick: 3 passes with rotating schedule; thorough: every schedule x 3 passes); " +
+		"big = 2^k, 2^k+-4 for k=12..16 plus one ~1 MiB frame per protocol (thorough: k=12..20 for 5 schedules x 3 deltas, k=12..24 once per protocol x wrap); limit (thorough only) = payloads of 16 MiB-12 and 16 MiB: a payload the sender accepts must be accepted by the receiver; " +
+		"random = random sequences of 1..30 (50) frames mixing lengths around the abridged 127-word boundary with 4-byte error frames; " +
+		"session = transport.Protocol.Handshake client + transport.Listen / ListenCodec / Listen(ObfuscatedListener) accept over the pipe, both directions, detected codec type checked by reflection and by the replies; " +
+		"detect = first-frame length sweep 8..1024 (8192) for listener detection; concurrent = 2..8 goroutines Send on one Conn, 1..2 Recv on the peer, offline exactly-once / integrity / per-sender FIFO check, under -race. " +
 		"Distinct non-trivial = (protocol/wrap, read-schedule class, payload-length class) triples actually delivered, plus detection first-byte patterns and concurrent configurations.")
 	c.Assume("harness byte pipe, chunking reader and offline checker are correct; they were validated with seeded codec mutants (see /verif/mutants/C16-*.diff)")
 	c.Assume("obfuscated2 (mtproxy/obfuscated2) is used only as a stream wrapper; its own handshake properties are C18")
@@ -54,7 +49,9 @@ func runC16(c *mon.Ctx) {
 		c.Inconclusive("restricted to arms " + f + " (VERIF_ARMS)")
 	}
 	t0 := time.Now()
-	progress := func(arm string) { fmt.Fprintf(os.Stderr, "codecmon: %-10s done at %6.1fs\n", arm, time.Since(t0).Seconds()) }
+	progress := func(arm string) {
+		fmt.Fprintf(os.Stderr, "codecmon: %-10s done at %6.1fs\n", arm, time.Since(t0).Seconds())
+	}
 	r := c.Rand("c16/plan")
 	seed := 0
 	next := func() int { seed++; return seed }
@@ -109,8 +106,8 @@ func runC16(c *mon.Ctx) {
 	})
 
 	// ---- big: 2^k and 2^k+-4. Quick: k = 12..16 per protocol x wrap (schedule and
-	// delta rotating) and one frame of 2^20-4 / 2^20 / 2^20+4 per protocol; thorough: k = 12..24
-	// for 5 schedules x 3 deltas.
+	// delta rotating) and one frame of 2^20-4 / 2^20 / 2^20+4 per protocol; thorough: k = 12..20
+	// for 5 schedules x 3 deltas and k = 12..24 once per protocol x wrap.
 	arm("big", func() {
 		bigKinds := []int{skAll, skRandBig, skBoundM1, skBound0, skBoundP1}
 		deltas := []int{-4, 0, 4}
@@ -125,7 +122,11 @@ func runC16(c *mon.Ctx) {
 						m.reset()
 						pr := c.RandN("c16/payload", sd)
 						var ps2 [][]byte
-						for k := 12; k <= c.N(16, 24); k++ {
+						maxK := c.N(16, 20)
+						if !c.Quick() && ki == (pi+wrap)%len(bigKinds) && di == (pi+wrap)%3 {
+							maxK = 24 // one 32 MiB sequence per protocol x wrap
+						}
+						for k := 12; k <= maxK; k++ {
 							n := 1<<k + d
 							if n > frameLimit-16 {
 								continue // the limit itself is the "limit" arm
@@ -168,7 +169,7 @@ func runC16(c *mon.Ctx) {
 
 	// ---- random sequences
 	arm("random", func() {
-		nRandom := c.N(2500, 150000)
+		nRandom := c.N(2500, 100000)
 		for i := 0; i < nRandom; i++ {
 			sd := next()
 			m.reset()
@@ -253,7 +254,7 @@ func runC16(c *mon.Ctx) {
 
 	// ---- concurrent senders on one Conn
 	arm("concurrent", func() {
-		reps := c.N(2, 150)
+		reps := c.N(2, 100)
 		for _, ps := range protos {
 			for _, v := range variantsOf(ps) {
 				if v == tvListenCodec {
